@@ -114,6 +114,11 @@ def check_case(case):
     nexec = 0
     collected = {(c.stream_id, c.test): alpha.flags_of(c.results)[0] for c in store.collected_results}
     if case.get("aggregate"):
+        if case["saves"]:
+            sv0 = case["saves"][0]  # a save BEFORE the aggregate must not freeze what later saves return
+            alpha.call(store.save, write_data=sv0["write_data"], write_axes=sv0["write_axes"],
+                       include=None if sv0["include"] is None else [item_of(t) for t in sv0["include"]],
+                       exclude=None if sv0["exclude"] is None else [item_of(t) for t in sv0["exclude"]])
         a = alpha.call(store.compute_aggregate)
         if isinstance(a, alpha.Raised):
             return [V(f"{PROP}|compute_aggregate|symptom=raises:{a.name}", f"compute_aggregate raised {a.name}: {a.msg}", None, repr(a))], True, None, 0, 1
@@ -235,6 +240,9 @@ def save_variants(streams, tests):
     lists = [[]] + [[a] for a in pool] + [[a, b] for a in pool for b in pool]
     for l in lists:
         out.append(dict(write_data=False, write_axes=False, include=l, exclude=None))
+        if len(l) <= 1:
+            out.append(dict(write_data=False, write_axes=True, include=l, exclude=None))
+            out.append(dict(write_data=False, write_axes=True, include=l + ["rollup"], exclude=None))
         out.append(dict(write_data=True, write_axes=True, include=None, exclude=l))
     for a in pool:
         for b in pool:
